@@ -794,13 +794,15 @@ def check_C07(ctx):
     ks = [0, 1, 3] if ctx.quick else [0, 1, 2, 3, 5, 8]
     extra = [{"fam": "cutgen", "k": k, "big": False} for k in ks] + [{"fam": "cutgen", "k": 3, "big": True}]
     extra += [{"fam": "cutgen", "unary": True, "k": 1, "big": b} for b in (False, True)]
+    extra += [{"fam": "bytesgen", "n": 400 if ctx.quick else 4000, "seed": ctx.seed * 7919 + j} for j in range(1 if ctx.quick else 5)]
     l2_stateless(ctx, "Framing", "framing",
                  "all abstract tapes of Framing!Cases (0..2 complete messages, then nothing / every partial prefix / every "
                  "size class incl. 0, the 100 MiB limit, limit+1, 2^31-1, -2^31, trailer, over-long trailer / a valid or "
                  "undecodable trailer / junk after the trailer; clean and abrupt endings) materialised as bytes and decoded "
                  "by the real client stream (replaying RoundTripper) and the real server stream (crafted request body, "
                  "streaming and single-request); plus recorded real reply bodies -- of a stream and of a unary call -- cut at "
-                 "every byte offset",
+                 "every byte offset; plus seeded random byte strings (frames, random payloads, hostile sizes, garbage, cut "
+                 "anywhere) mapped to tapes by reading size prefixes only and judged by the same Dec",
                  extra_cases=extra, chk="ChkAny", sig_keys=("fam", "side", "ending"))
     ctx.assumptions += ["allocation is measured as the delta of runtime.MemStats.TotalAlloc around the decode and compared "
                         "with the 100 MiB per-message limit plus 32 MiB slack",
